@@ -11,6 +11,7 @@ import (
 	"go/constant"
 	"go/token"
 	"go/types"
+	"os"
 	"strings"
 )
 
@@ -98,6 +99,8 @@ type Interp struct {
 	// execStmt sets forkCall; evalCall leaves the returning paths in forked
 	forkCall *ast.CallExpr
 	forked   []*State
+	// results of helper calls that forkNested has already run on the current path
+	subst map[*ast.CallExpr]*T
 }
 
 func newInterp(c *Ctx) *Interp { return &Interp{C: c, MaxPaths: 600} }
@@ -213,6 +216,9 @@ func (in *Interp) execStmts(list []ast.Stmt, states []*State) []*State {
 }
 
 func (in *Interp) execStmt(s ast.Stmt, st *State) []*State {
+	if out, ok := in.forkNested(s, st); ok {
+		return out
+	}
 	switch x := s.(type) {
 	case *ast.BlockStmt:
 		return in.execStmts(x.List, []*State{st})
@@ -316,6 +322,39 @@ func (in *Interp) execStmt(s ast.Stmt, st *State) []*State {
 				st.Ret = in.namedResults(st, in.fnStack[len(in.fnStack)-1])
 			}
 		} else if len(x.Results) == 1 {
+			// `return helper(..)` with a new helper whose returning paths differ: one successor per path
+			if call, ok := unparen(x.Results[0]).(*ast.CallExpr); ok && in.Inline != nil {
+				if callee := in.C.Callee(call); callee != nil && in.Inline(callee) {
+					base := st.Clone()
+					in.forkCall, in.forked = call, nil
+					t0 := in.eval(st, x.Results[0])
+					forked := in.forked
+					in.forkCall, in.forked = nil, nil
+					if forked != nil {
+						var out []*State
+						for _, r := range forked {
+							ns := base.Clone()
+							ns.Mem, ns.Eff, ns.X, ns.Conds = r.Mem, r.Eff, r.X, r.Conds
+							for k, v := range r.Flags {
+								ns.Flags[k] = v
+							}
+							ns.Ret = r.Ret
+							ns.Done = "return"
+							out = append(out, ns)
+						}
+						return out
+					}
+					if tup, ok := in.C.TypeOf(x.Results[0]).(*types.Tuple); ok && tup.Len() > 1 {
+						for i := 0; i < tup.Len(); i++ {
+							st.Ret = append(st.Ret, &T{Op: "proj", K: int64(i), Args: []*T{t0}})
+						}
+					} else {
+						st.Ret = []*T{t0}
+					}
+					st.Done = "return"
+					return []*State{st}
+				}
+			}
 			t := in.eval(st, x.Results[0])
 			if tup, ok := in.C.TypeOf(x.Results[0]).(*types.Tuple); ok && tup.Len() > 1 {
 				for i := 0; i < tup.Len(); i++ {
@@ -348,6 +387,72 @@ func (in *Interp) execStmt(s ast.Stmt, st *State) []*State {
 	case *ast.TypeSwitchStmt:
 		return in.execTypeSwitch(x, st)
 	case *ast.ForStmt, *ast.RangeStmt:
+		// a range over a short list that is known element by element — a literal of constants
+		// (for _, stop := range []string{";", "{"}) or a local built by a literal and appends
+		// — is unrolled: each element is one pass through the body
+		if rs, ok := s.(*ast.RangeStmt); ok && (rs.Tok == token.DEFINE || rs.Tok == token.ASSIGN) {
+			var elems []*T
+			known := false
+			if cl, ok := unparen(rs.X).(*ast.CompositeLit); ok && len(cl.Elts) > 0 {
+				known = true
+				for _, el := range cl.Elts {
+					if _, isKV := el.(*ast.KeyValueExpr); isKV {
+						known = false
+					} else if _, ok := in.C.ConstOf(el); !ok {
+						known = false
+					}
+				}
+				if _, isSlice := in.C.TypeOf(cl).Underlying().(*types.Slice); !isSlice {
+					known = false
+				}
+				if known {
+					for _, el := range cl.Elts {
+						elems = append(elems, in.eval(st, el))
+					}
+				}
+			} else if id, ok := unparen(rs.X).(*ast.Ident); ok {
+				if v, ok := in.C.Obj(id).(*types.Var); ok && v.Parent() != in.C.Types.Scope() {
+					if _, isSlice := v.Type().Underlying().(*types.Slice); isSlice {
+						elems, known = listElems(in.eval(st, rs.X))
+					}
+				}
+			}
+			if known && len(elems) > 0 && len(elems) <= 6 {
+				states := []*State{st}
+				for i, el := range elems {
+					var next []*State
+					for _, cur := range states {
+						if cur.Done != "" {
+							next = append(next, cur)
+							continue
+						}
+						if rs.Key != nil {
+							in.storeLV(cur, rs.Key, in.lvalue(cur, rs.Key), tInt(int64(i)))
+						}
+						if rs.Value != nil {
+							in.storeLV(cur, rs.Value, in.lvalue(cur, rs.Value), el)
+						}
+						for _, o := range in.execStmts(rs.Body.List, []*State{cur}) {
+							if o.Done == "continue" {
+								o.Done = ""
+							}
+							next = append(next, o)
+						}
+					}
+					states = next
+					if len(states) > in.MaxPaths {
+						in.Overflow = true
+						break
+					}
+				}
+				for _, o := range states {
+					if o.Done == "break" {
+						o.Done = ""
+					}
+				}
+				return states
+			}
+		}
 		if in.H.Loop != nil {
 			if out := in.H.Loop(in, st, s); out != nil {
 				return out
@@ -949,6 +1054,55 @@ func (in *Interp) eval0(st *State, e ast.Expr) *T {
 				}
 			}
 		}
+		// a package-level table keyed by constants (map[code]code{codeAdd: codeLocalAdd, ..})
+		if os.Getenv("GC_DEBUG") != "" {
+			fmt.Println("INDEXDBG", base.Op, base.String(), idx.Op, idx.String(), idx.Obj != nil)
+		}
+		if base.Op == "var" && (idx.Op == "const" || idx.Op == "int") {
+			if v, ok := base.Obj.(*types.Var); ok && v.Parent() == in.C.Types.Scope() {
+				if cl := in.C.mapLit(v.Name()); cl != nil && !in.C.mapMutated(v) {
+					var want constant.Value
+					if idx.Op == "int" {
+						want = constant.MakeInt64(idx.K)
+					} else if co, ok := idx.Obj.(*types.Const); ok {
+						want = co.Val()
+					}
+					if want != nil && want.Kind() == constant.Int {
+						decided := true
+						for _, el := range cl.Elts {
+							kv, ok := el.(*ast.KeyValueExpr)
+							if !ok {
+								decided = false
+								break
+							}
+							kc, ok := in.C.ConstOf(kv.Key)
+							if !ok || kc.Kind() != constant.Int {
+								decided = false
+								break
+							}
+							if constant.Compare(kc, token.EQL, want) {
+								return in.eval(st, kv.Value)
+							}
+						}
+						if decided {
+							// the zero value: the named constant of the element type that is 0, if any
+							et := in.C.TypeOf(x)
+							sc := in.C.Types.Scope()
+							for _, nm := range sc.Names() {
+								if co, ok := sc.Lookup(nm).(*types.Const); ok && types.Identical(co.Type(), et) && co.Val().Kind() == constant.Int {
+									if z, ok := constant.Int64Val(co.Val()); ok && z == 0 {
+										t := tConst(nm)
+										t.Obj = co
+										return t
+									}
+								}
+							}
+							return in.constTerm(constant.MakeInt64(0), et)
+						}
+					}
+				}
+			}
+		}
 		return in.load(st, tIndex(base, idx))
 	case *ast.SliceExpr:
 		base := in.eval(st, x.X)
@@ -1181,6 +1335,9 @@ func sortKV(a []*T) {
 
 func (in *Interp) evalCall(st *State, call *ast.CallExpr, stmt bool) *T {
 	c := in.C
+	if t, ok := in.subst[call]; ok {
+		return t
+	}
 	if typ, ok := c.IsConversion(call); ok && len(call.Args) == 1 {
 		a := in.eval(st, call.Args[0])
 		name := types.TypeString(typ, func(p *types.Package) string {
@@ -1544,6 +1701,141 @@ func loopReturns(fd *ast.FuncDecl) bool {
 			return true
 		})
 		return true
+	})
+	return found
+}
+
+// listElems: the elements of a slice term that is known element by element: a literal,
+// nil, or builtin.append of such a list and single elements.
+func listElems(t *T) ([]*T, bool) {
+	switch {
+	case t == nil:
+		return nil, false
+	case t.Op == "nil":
+		return nil, true
+	case t.Op == "lit":
+		var out []*T
+		for _, a := range t.Args {
+			if a.Op == "kv" {
+				return nil, false
+			}
+			out = append(out, a)
+		}
+		return out, true
+	case t.Op == "call" && (t.Name == "builtin.append" || t.Name == "append") && len(t.Args) >= 1:
+		base, ok := listElems(t.Args[0])
+		if !ok {
+			return nil, false
+		}
+		for _, a := range t.Args[1:] {
+			if a.Op == "un" && a.Name == "..." {
+				return nil, false
+			}
+			base = append(base, a)
+		}
+		return base, true
+	}
+	return nil, false
+}
+
+// forkNested: a simple statement that contains, as an operand (not as its outermost
+// expression, which execStmt forks on itself), a call of a new helper whose returning paths
+// differ — t.Append(asStatement(forClause(p, t, "{"))) — is executed once per path of that
+// helper, with the call replaced by the path's result.
+func (in *Interp) forkNested(s ast.Stmt, st *State) ([]*State, bool) {
+	if in.Inline == nil || in.depth > 6 {
+		return nil, false
+	}
+	var roots []ast.Expr
+	switch x := s.(type) {
+	case *ast.ExprStmt:
+		roots = []ast.Expr{x.X}
+	case *ast.AssignStmt:
+		if x.Tok != token.ASSIGN && x.Tok != token.DEFINE {
+			return nil, false
+		}
+		roots = x.Rhs
+	case *ast.ReturnStmt:
+		roots = x.Results
+	default:
+		return nil, false
+	}
+	var cands []*ast.CallExpr
+	for _, root := range roots {
+		top := unparen(root)
+		ast.Inspect(root, func(n ast.Node) bool {
+			if _, isLit := n.(*ast.FuncLit); isLit {
+				return false
+			}
+			call, ok := n.(*ast.CallExpr)
+			if !ok || ast.Expr(call) == top {
+				return true
+			}
+			if _, done := in.subst[call]; done {
+				return true
+			}
+			if callee := in.C.Callee(call); callee != nil && in.Inline(callee) {
+				if fd := in.C.DeclOf(callee); fd != nil && fd.Body != nil && branches(fd.Body) {
+					cands = append(cands, call)
+				}
+			}
+			return true
+		})
+	}
+	for _, call := range cands {
+		// trial run on a copy: does the helper fork here?
+		trial := st.Clone()
+		saveFork, saveForked := in.forkCall, in.forked
+		in.forkCall, in.forked = call, nil
+		in.depth++
+		for _, root := range roots {
+			in.eval(trial, root)
+		}
+		in.depth--
+		forked := in.forked
+		in.forkCall, in.forked = saveFork, saveForked
+		if forked == nil {
+			continue
+		}
+		var out []*State
+		for _, r := range forked {
+			ns := st.Clone()
+			ns.Mem, ns.Eff, ns.X, ns.Conds = r.Mem, r.Eff, r.X, r.Conds
+			for k, v := range r.Flags {
+				ns.Flags[k] = v
+			}
+			var rt *T
+			switch len(r.Ret) {
+			case 0:
+				rt = &T{Op: "tuple", Name: "void"}
+			case 1:
+				rt = r.Ret[0]
+			default:
+				rt = &T{Op: "tuple", Name: "", Args: r.Ret}
+			}
+			if in.subst == nil {
+				in.subst = map[*ast.CallExpr]*T{}
+			}
+			in.subst[call] = rt
+			out = append(out, in.execStmt(s, ns)...)
+			delete(in.subst, call)
+		}
+		return out, true
+	}
+	return nil, false
+}
+
+// branches: the body has an if / switch (a helper without one has a single path).
+func branches(b *ast.BlockStmt) bool {
+	found := false
+	ast.Inspect(b, func(n ast.Node) bool {
+		switch n.(type) {
+		case *ast.IfStmt, *ast.SwitchStmt, *ast.TypeSwitchStmt:
+			found = true
+		case *ast.FuncLit:
+			return false
+		}
+		return !found
 	})
 	return found
 }
